@@ -135,8 +135,15 @@ func Concretize(e *Edge, n int) Concrete {
 			if parts[0] == "none" {
 				plan.ReadMode = rec.ReadNone
 			}
+			if parts[0] == "some" {
+				plan.ReadMode = rec.ReadK
+				plan.K = 2
+			}
 			if parts[1] == "rej" {
 				plan.Err = fmt.Errorf("verdict-%d", n)
+			}
+			if parts[1] == "panic" {
+				plan.Panic = true
 			}
 			k.Setup = func(be *rec.Backend) { be.DataPlans = []rec.DataPlan{plan} }
 			if parts[0] == "all" {
@@ -178,6 +185,8 @@ func Concretize(e *Edge, n int) Concrete {
 			case "early":
 				plan.ReadMode = rec.ReadNone
 				plan.Err = fmt.Errorf("verdict-%d", n)
+			case "panic":
+				plan.Panic = true
 			}
 			k.Setup = func(be *rec.Backend) { be.DataPlans = []rec.DataPlan{plan} }
 		}
@@ -219,6 +228,8 @@ func Concretize(e *Edge, n int) Concrete {
 				case "early":
 					plan.ReadMode = rec.ReadNone
 					plan.Err = fmt.Errorf("verdict-%d", n)
+				case "panic":
+					plan.Panic = true
 				}
 				if hasCb("Data.begin") || hasCb("LMTPData.begin") {
 					k.Setup = func(be *rec.Backend) { be.DataPlans = []rec.DataPlan{plan} }
@@ -446,7 +457,11 @@ func (cv *Conv) Exec(e *Edge) (divs []evid.Div, fatal error) {
 			if errors.As(err, &stuck) {
 				cv.dead = true
 				cv.Hist = append(cv.Hist, StepRec{Cmd: e.Lbl.Cmd.String(), Sent: sent, Expect: "HANG: " + stuck.Where})
-				d := evid.Div{Prop: "C04", Key: "hang:" + e.Lbl.Cmd.String() + ":" + stuck.Where,
+				hp := "C04" // no reply
+				if e.Dst.Closed || strings.Contains(stuck.Where, "(*Conn).Close") {
+					hp = "C08" // the connection never ends: no Logout, goroutine left behind
+				}
+				d := evid.Div{Prop: hp, Key: "hang:" + e.Lbl.Cmd.String() + ":" + stuck.Where,
 					Msg: fmt.Sprintf("%s in state %s: no reply - %v\n%s", e.Lbl.Cmd, stShort(e.Src), stuck, stuck.Dump), Replay: replayOf(cv, e)}
 				cv.Labels = append(cv.Labels, e.Lbl)
 				return []evid.Div{d}, nil
@@ -565,7 +580,8 @@ func (cv *Conv) Exec(e *Edge) (divs []evid.Div, fatal error) {
 				divs = append(divs, evid.Div{Prop: "C04", Key: "enhanced:" + e.Lbl.Cmd.String(), Msg: ctx + ": " + m, Replay: rp()})
 			}
 			// LMTP finals name their recipient, in RCPT order
-			if e.Cfg.Lmtp && len(exp) > 1 && (e.Lbl.Cmd.C == "DATA" && i >= 1 || e.Lbl.Cmd.C == "BDAT") {
+			// (the 421 of a recovered backend panic ends the connection and is not judged)
+			if e.Cfg.Lmtp && r.Code != 421 && len(exp) > 1 && (e.Lbl.Cmd.C == "DATA" && i >= 1 || e.Lbl.Cmd.C == "BDAT") {
 				idx := i
 				if e.Lbl.Cmd.C == "DATA" {
 					idx = i - 1
@@ -766,7 +782,7 @@ var Debug = false
 
 // Stats of a replay run.
 type Stats struct {
-	Edges, Covered, Steps, Convs, Blocked, Walked int
+	Edges, Covered, Steps, Convs, Blocked, Walked, Hangs int
 	Samples                      []interface{}
 }
 
@@ -813,6 +829,9 @@ func TourFiltered(g *Graph, run *evid.Run, rng *rand.Rand, maxEdges int, want fu
 		if maxEdges > 0 && st.Covered >= maxEdges {
 			break
 		}
+		if drv.TooManyHangs() {
+			break
+		}
 		if Debug && iter%200 == 0 {
 			fmt.Printf("tour cfg=%+v iter=%d covered=%d/%d steps=%d convs=%d\n", g.Cfg, iter, st.Covered, st.Edges, st.Steps, st.Convs)
 		}
@@ -856,9 +875,17 @@ func TourFiltered(g *Graph, run *evid.Run, rng *rand.Rand, maxEdges int, want fu
 			st.Walked++
 			for _, d := range divs {
 				if Debug {
-					fmt.Printf("DIV %s %s: %s\n", d.Prop, d.Key, d.Msg)
+					fmt.Printf("DIV %s %s: %.300s\n", d.Prop, d.Key, d.Msg)
 				}
 				run.Report(d)
+				if strings.HasPrefix(d.Key, "hang:") {
+					st.Hangs++
+				}
+			}
+			if st.Hangs >= 3 || drv.TooManyHangs() {
+				// the server under test hangs: every further occurrence costs a
+				// full timeout and proves nothing new
+				return st, nil
 			}
 			if len(divs) > 0 && e != target {
 				// a step on the way diverged: the target cannot be reached
